@@ -158,8 +158,14 @@ class NestedQueryPostprocessingTransformation(QueryPostprocessingTransformation)
     def __post_init__(self) -> None:
         from sigma.processing.pipeline import (
             ProcessingPipeline,
+            QueryPostprocessingItem,
         )  # TODO: move to top-level after restructuring code
 
+        # items arrive as plain dicts when the transformation is part of a pipeline definition
+        self.items = [
+            i if isinstance(i, QueryPostprocessingItem) else QueryPostprocessingItem.from_dict(i)
+            for i in self.items
+        ]
         self._nested_pipeline = ProcessingPipeline(postprocessing_items=self.items)
 
     @classmethod
